@@ -48,12 +48,10 @@ func Trace() []string {
 // Names is the path argument of every fault point passed since Reset (diagnostics only).
 var Names []string
 
+func point(label string) error { return pointN(label, "") }
+
 func pointN(label, name string) error {
 	Names = append(Names, label+" "+name)
-	return point(label)
-}
-
-func point(label string) error {
 	n := calls.Add(1)
 	if p := log.Load(); p != nil {
 		*p = append(*p, label)
